@@ -190,7 +190,53 @@ def rule_lists(ctx, rep):
         rep.check(bool(dst), "C15.lists", fl + ".splice-into-registry", "the splice targets the registry", "the splice does not write the registry head", [sp[0].where()])
 
 
+LF = "cds_list_head"
+LISTOPS = {
+    "cds_list_add": {("*(arg1.%s.next).%s.prev" % (LF, LF), "arg0"), ("arg0.%s.next" % LF, "ld(arg1.%s.next)" % LF), ("arg0.%s.prev" % LF, "arg1"), ("arg1.%s.next" % LF, "arg0")},
+    "__cds_list_del": {("arg1.%s.prev" % LF, "arg0"), ("arg0.%s.next" % LF, "arg1")},
+    "cds_list_splice": {("*(arg0.%s.next).%s.prev" % (LF, LF), "arg1"), ("*(arg0.%s.prev).%s.next" % (LF, LF), "ld(arg1.%s.next)" % LF),
+                        ("*(arg1.%s.next).%s.prev" % (LF, LF), "ld(arg0.%s.prev)" % LF), ("arg1.%s.next" % LF, "ld(arg0.%s.next)" % LF)},
+}
+
+
+def rule_listops(ctx, rep):
+    """pointer surgery of the list primitives the registry is built on (T12: exact table of (target, value) pairs over the
+    pre-state: every load reads a location no earlier store of the function wrote)"""
+    n = 0
+    for fl in ALL:
+        F = FL[fl]
+        m = ctx.mod(F.lib, "perfn")
+        for name, want in LISTOPS.items():
+            for f in m.by_src(name):
+                rep.touch(f)
+                n += 1
+                sts = [s for s in f.all_insts() if s.op == "store"]
+                lds = [l for l in f.all_insts() if l.op == "load"]
+                # pre-state discipline
+                dirty = [(s, l) for s in sts for l in lds if ir.ap_str(f, s.d["ap"]) == ir.ap_str(f, l.d["ap"]) and f.reach([s], [l])[0] is not None]
+                if dirty:
+                    raise Broken("%s.%s: a load re-reads a location written earlier in the function (%s): the pair table does not apply" % (fl, f.name, dirty[0][1].where()))
+                got = set((ir.ap_str(f, s.d["ap"]), ir.expr_str(ir.expr(f, s.args[0], 3))) for s in sts)
+                rep.check(got == want, "C15.listops", "%s.%s" % (fl, f.name), "%s performs exactly the %d pointer updates of a doubly-linked %s" % (name, len(want), name.split("_")[-1]),
+                          "%s pointer updates differ from a correct %s: unexpected %s, missing %s (the registry list is corrupted / loses readers)" % (
+                              name, name.split("_")[-1], sorted(got - want), sorted(want - got)), [s.where() for s in sts if (ir.ap_str(f, s.d["ap"]), ir.expr_str(ir.expr(f, s.args[0], 3))) in (got - want)][:2] or [f.name])
+                if name == "cds_list_splice":
+                    g = all(any(a[0] == "ne" and set([ir.expr_str(a[1]), ir.expr_str(a[2])]) == set(["arg0", "ld(arg0.%s.next)" % LF]) for a in pat.dom_leaf_atoms(f, s)) for s in sts)
+                    rep.check(g, "C15.listops", "%s.%s.nonempty-guard" % (fl, f.name), "splices only a non-empty source list", "splice not guarded by `source non-empty`", [f.name])
+        for f in m.by_src("cds_list_del") + m.by_src("cds_list_move"):
+            rep.touch(f)
+            d = [c for c in f.calls() if m.fn(c.callee) is not None and m.fn(c.callee).srcname == "__cds_list_del"]
+            ok = len(d) == 1 and ir.expr_str(ir.expr(f, d[0].args[0], 2)) == "ld(arg0.%s.prev)" % LF and ir.expr_str(ir.expr(f, d[0].args[1], 2)) == "ld(arg0.%s.next)" % LF
+            rep.check(ok, "C15.listops", "%s.%s.unlink" % (fl, f.name), "unlinks with __cds_list_del(elem->prev, elem->next)", "%s unlinks with wrong neighbours" % f.srcname, [f.name])
+            if f.srcname == "cds_list_move":
+                a = [c for c in f.calls() if m.fn(c.callee) is not None and m.fn(c.callee).srcname == "cds_list_add"]
+                ok2 = len(a) == 1 and d and f.dominates(d[0], a[0]) and ir.expr(f, a[0].args[0]) == ("arg", 0) and ir.expr(f, a[0].args[1]) == ("arg", 1)
+                rep.check(ok2, "C15.listops", "%s.%s.relink" % (fl, f.name), "then adds the element to the destination head", "cds_list_move does not unlink-then-add(elem, head)", [f.name])
+    pat.require(n >= 8, "list primitives not found (%d)" % n)
+
+
 RULES = [
+    ("C15.listops", rule_listops),
     ("C15.lockset", rule_lockset),
     ("C15.reg", rule_reg),
     ("C15.arena", rule_arena),
